@@ -49,6 +49,8 @@ class Walker:
         self.comp_at = {}
         self.flush_seen = False       # some segment has been published by a flush (this or an earlier lifetime)
         self.flushed_at = {}
+        self.publish_points = {}      # shard -> [(life, step during/after which a flush published a segment)]
+        self._scan_step = -1
         self.clock_regressed = False  # some lifetime started at or before the latest wall-clock value seen earlier
         self.max_wall = None
         self.samples = []
@@ -95,7 +97,15 @@ class Walker:
                     break
         self.stats["ids_observed"] += sum(len(v) for v in by_shard.values())
 
+    def is_unflushed(self, ev, li, si):
+        """True if no flush of the event's shard published a segment between the STORE of `ev` and the read at
+        (li, si); a publication during the read's own step counts as flushed (undecidable, so not claimed)."""
+        from .model import shard_of
+        sh = shard_of(ev.ctx, self.nshards)
+        return not any((ev.life, ev.step) <= p <= (li, si) for p in self.publish_points.get(sh, []))
+
     def walk_life(self, li, life, events, code, err):
+        self._scan_step = -1
         resp_by_step, issue_by_step, stuck = {}, {}, set()
         crash = None
         end = None
@@ -107,6 +117,13 @@ class Walker:
                 self.comp_seen = True
             if t == "gate" and e.get("name") == "flush.published":
                 self.flush_seen = True
+                try:
+                    sh = int(str(e.get("key", "s0/")).split("/")[0][1:])
+                    self.publish_points.setdefault(sh, []).append((li, self._scan_step))
+                except ValueError:
+                    pass
+            if t == "issue":
+                self._scan_step = e["step"]
             if t == "gate" and e.get("parked"):
                 parked_now[e.get("rule")] = e.get("name")
             elif t == "release":
@@ -629,7 +646,16 @@ def on_ordered(self, li, si, st, meta, issue, r):
     n = q.get("limit")
     want = full[m:] if n is None else full[m:m + n]
     if sorted(got_keys, key=Q.sort_key_value) != sorted(want, key=Q.sort_key_value):
-        self.v("order-slice", li, si, f"{what}: sort keys {got_keys}, positions {m}..{'' if n is None else m+n} of the order are {want}", atoms=atoms)
+        # cause-class attribute: a missing sort key that only events still in memory carry cannot have been lost by a
+        # pruning decision over on-disk zones
+        miss = Counter(map(repr, want)) - Counter(map(repr, got_keys))
+        missing_unflushed = False
+        for key in miss:
+            carriers = [e for e in must if repr(Q.field_value(e, field)) == key]
+            if carriers and all(self.is_unflushed(e, li, si) for e in carriers):
+                missing_unflushed = True
+        self.v("order-slice", li, si, f"{what}: sort keys {got_keys}, positions {m}..{'' if n is None else m+n} of the order are {want}", atoms=atoms,
+               missing_unflushed=missing_unflushed)
     self._cur_atoms = atoms
     _invariance(self, li, si, what, [str(x) for x in sorted(got_keys, key=Q.sort_key_value)], "sort keys")
     self.stats["reads:ordered"] += 1
